@@ -21,7 +21,8 @@ RULE = ('per case one random 2-D and one random 3-D crystal (all lattice systems
         'GroupOp = up to 5 operations of G, products and lattice-translated versions, each with an exact copy and a 1e-13 '
         'perturbed copy; PairState/ClusterSite = random (i,j,R) / (ci,R) with copies, dx-perturbed copies and neighbours in '
         'index space; Cluster = random plain / transition / vacancy / vacancy-transition clusters with permuted and '
-        'translated copies, plus collinear triples / parallelograms with the transition or vacancy on every (parallel) pair; vacancyThermoKinetics = random keys with copies, last-bit / -0.0 / 1e-13 perturbed copies and '
+        'translated copies, plus collinear triples / parallelograms with the transition or vacancy on every (parallel) pair; '
+        'vacancyThermoKinetics = random keys with copies, last-bit / -0.0 / 1e-13 perturbed copies and '
         'clearly different keys; non-trivial = every pool has >= 2 equality classes and >= 1 class with >= 2 members; '
         'distinct = (type, lattice kind, atoms, |G|)')
 ASSUMPTIONS = ['perturbations are <= 1e-12 (comparison tolerances of the classes are 1e-8 absolute / 1e-5 relative); clearly '
@@ -33,11 +34,11 @@ ASSUMPTIONS = ['perturbations are <= 1e-12 (comparison tolerances of the classes
                'dtypes are not explored']
 REQUIRED_OBS = {'eval:C36:GroupOp:eq-implies-hash': 200, 'eval:C36:PairState:eq-implies-hash': 200,
                 'eval:C36:ClusterSite:eq-implies-hash': 200, 'eval:C36:Cluster:eq-implies-hash': 200,
-                'eval:C36:vTK:eq-implies-hash': 100, 'eval:C36:vTK:ne-negates-eq': 100,
+                'eval:C36:vTK:eq-implies-hash': 500, 'eval:C36:vTK:ne-negates-eq': 1000,
                 'eval:C36:GroupOp:transitive': 200, 'eval:C36:vTK:transitive': 100,
                 'eval:C36:PairState:sub-add': 40, 'eval:C36:PairState:xor-add': 40, 'eval:C36:PairState:neg-zero': 40,
                 'eval:C36:PairState:mismatch-raises': 20, 'eval:C36:PairState:g-add': 40, 'eval:C36:PairState:g-neg': 40,
-                'equal_pairs_seen': 500, 'unequal_pairs_seen': 500, 'cluster_kinds': 4, 'structured_cluster_sets': 20}
+                'equal_pairs_seen': 4000, 'unequal_pairs_seen': 50000, 'cluster_kinds': 40, 'structured_cluster_sets': 20}
 CHUNK = 4
 MIXED_DIM = False    # optional sub-workload: compare 2-D with 3-D instances (== must answer False, not raise); off: outside the quantifier
 MIXED_SHAPE = False  # optional sub-workload: vacancyThermoKinetics keys with different array lengths; off: outside the quantifier
@@ -48,7 +49,7 @@ TINY = 1e-13
 
 
 def cases(tier, seed):
-    n = 32 if tier == 'quick' else 500
+    n = 32 if tier == 'quick' else 600
     return [{'seed': seed, 'idx': i, 'hashseed': i % 5} for i in range(n)]
 
 
